@@ -30,7 +30,7 @@ def run(ctx, prefix=PREFIX):
     # histories that put an item back after it was deleted (it keeps its stale session name): SectionReuse, model only; the
     # image of "re-number by the session name of the new item" (seeded change C13-19) must break the refinement
     tset = lambda xs: "{" + ", ".join('"%s"' % x for x in xs) + "}"
-    rnames, rkeys = ((["A", ""], ["A", "A:1"]) if ctx.tier != "thorough" else (["A", "", "A:1"], ["A", "A:1", "A:2", "UNKNOWN", "Z"]))
+    rnames, rkeys = ["A", ""], ["A", "A:1"]
     rcfg = ("SPECIFICATION Spec2\nCONSTANTS\n  Names = %s\n  KeyPool = %s\n  MaxLen = 3\n  MaxDepth = 0\n  Emit = FALSE\n  RenumberBy = \"%s\"\n"
             "PROPERTY Refines2\n%sVIEW View2\nCHECK_DEADLOCK FALSE\n")
     rr = ctx.model_check("SectionReuse", rcfg.replace("Emit = FALSE", "Emit = TRUE").replace("PROPERTY Refines2", "ACTION_CONSTRAINT EmitBack\nPROPERTY Refines2")
@@ -41,6 +41,11 @@ def run(ctx, prefix=PREFIX):
     if not putbacks:
         raise tlc.MachineryError("SectionReuse printed no put-back transition")
     ctx.extra["model_putback_edges"] = len(putbacks)
+    if ctx.tier == "thorough":
+        # the larger instance, model only: three names incl. a literal "A:1", five keys (1.2 M distinct states, about 5 minutes)
+        ctx.model_check("SectionReuse", rcfg % (tset(["A", "", "A:1"]), tset(["A", "A:1", "A:2", "UNKNOWN", "Z"]), "useful",
+                                                "INVARIANT DistinctOrKnown\nINVARIANT ResolvesInv\n"),
+                        label="SectionReuse refines Section (names=['A', '', 'A:1'], 5 keys), model only", workers=16, timeout=3400)
     rs = tlc.run("SectionReuse", rcfg % (tset(["A", ""]), tset(["A", "A:1"]), "session", ""), workers=4, timeout=600, allow_violation=True)
     if rs.violation != "Refines2":
         raise tlc.MachineryError("SectionReuse with RenumberBy = session does not violate Refines2 (%r): the model does not react" % rs.violation)
@@ -61,7 +66,7 @@ def run(ctx, prefix=PREFIX):
         all_traces += t
         all_meta += m
     for kind in ("header", "curve"):
-        t, m = section.replay_putbacks(ctx, putbacks, rkeys, kind=kind, limit=None if ctx.tier == "thorough" and len(putbacks) < 60000 else 2500, rng=rng)
+        t, m = section.replay_putbacks(ctx, putbacks, rkeys, kind=kind, limit=None if ctx.tier == "thorough" else 2500, rng=rng)
         all_traces += t
         all_meta += m
     big = ["A", "a", "B", "b", "", " ", "A:1", "a:1", "A:2", "1", "UNKNOWN", "UNKNOWN:1"]
